@@ -97,7 +97,7 @@ def conc_scenarios():
     if _opt("execgen_set", "set_cmd"):
         sc.append("set")
     sc.append("bigread")
-    sc += ["addrem", "keysstable", "streamtrim"]
+    sc += ["addrem", "keysstable", "streamtrim", "bpoptime"]
     return sc
 
 
@@ -200,7 +200,9 @@ def hash_reread(gen):
     from . import execgen_hash as h
     ch = lambda rng, k: [[b"HDEL", k, rng.choice(h.FIELDS)], [b"HSET", k, rng.choice(h.FIELDS), rng.choice(h.VALS)], [b"HINCRBY", k, rng.choice(h.FIELDS), b"1"],
                          [b"HSETNX", k, rng.choice(h.FIELDS), b"z"], [b"HDEL", k] + list(h.FIELDS[:4])]
-    rr = lambda k: [[b"HGETALL", k], [b"HLEN", k]]
+    # the random selection is re-read too: with a count of 1000 every field must come back, once (a sampling structure kept beside the table must
+    # follow every change: seeded change C10-hrandfield-shuffle-stale-pos)
+    rr = lambda k: [[b"HGETALL", k], [b"HLEN", k], [b"HRANDFIELD", k, b"1000"], [b"HRANDFIELD", k, b"1000", b"WITHVALUES"], [b"HRANDFIELD", k, b"-20"]]
     return Reread(gen, {n: (ch, rr) for n in (b"hgetall", b"hkeys", b"hvals", b"hlen", b"hrandfield", b"hget", b"hexists")})
 
 
